@@ -382,7 +382,10 @@ class HedTag:
 
         if stripped_value:
             if unit_entry.get_conversion_factor(unit) is not None:
-                return float(stripped_value) * unit_entry.get_conversion_factor(unit)
+                try:
+                    return float(stripped_value) * unit_entry.get_conversion_factor(unit)
+                except ValueError:
+                    return None  # The value is not a number, so it has no value in default units.
 
     @property
     def unit_classes(self):
